@@ -13,7 +13,8 @@ pub fn lib_file() -> MFile {
     f.defs.push(en("HV", None, vec![MEnumerator { c: MCommon::new("A"), fields: Some(vec![MField::new("x", MType::prim("int32"))]), value: None }, enumerator("B")]));
     f.defs.push(custom("HC"));
     f.defs.push(iface("HI", vec![], vec![op("hop", vec![], MRet::None)]));
-    f.defs.push(iface("HJ", vec![], vec![op("jop", vec![MParam::new("a", MType::prim("int32"))], MRet::Single { tag: None, stream: false, ty: MType::prim("string") })]));
+    // (HJ has a base of its own: whoever derives from HJ has a base that is not written in its own base list)
+    f.defs.push(iface("HJ", vec![MType::named("HI")], vec![op("jop", vec![MParam::new("a", MType::prim("int32"))], MRet::Single { tag: None, stream: false, ty: MType::prim("string") })]));
     f.defs.push(alias("HA", MType::seq(MType::prim("int32"))));
     f.defs.push(alias("HB", MType::named("HS")));
     f.defs.push(alias("HP", MType::prim("int32").attr(MAttr::with("cs::alias", vec![MArg::Str("p".into())]))));
